@@ -8,7 +8,7 @@
    An index map sends a voxel index of the result to [Some] index of the receiver or to
    [None] (= new voxel, padding). *)
 From Coq Require Import String ZArith List Bool QArith Qcanon.
-From HD Require Import C08_Model C08_Proofs C08_Proofs_Step C08_Proofs_More C08_Proofs_Qc C08_Proofs_Ext C08_Proofs_Orient C08_Proofs_Top C08_Proofs_Inv C08_Proofs_Scale.
+From HD Require Import C08_Model C08_Proofs C08_Proofs_Step C08_Proofs_More C08_Proofs_Qc C08_Proofs_Ext C08_Proofs_Orient C08_Proofs_Top C08_Proofs_Inv C08_Proofs_Scale C08_Proofs_Hist C08_Proofs_Conv.
 Import ListNotations.
 Open Scope string_scope.
 Open Scope Z_scope.
@@ -550,3 +550,195 @@ Example C08_example_lookup :
   vec_int (q_lookup (v_aff _ _ ex_vol2) (q_phys (v_aff _ _ ex_vol2) (1, 2, 0))) = Some (1, 2, 0).
 Proof. exact ex_lookup. Qed.
 Print Assumptions C08_example_lookup.
+
+(* 16. "new voxels are padding" for EVERY finite history - where each voxel of the result comes
+       from.  With Phi the composed index map: a voxel with Phi j = Some i is initial voxel i at
+       its coordinate (3.); a voxel with Phi j = None descends from a voxel m of an intermediate
+       object vmid that ONE pad-family operation of the history (pad, pad_to_spatial_shape,
+       pad_or_crop_to_spatial_shape: nopad s = false) created: vmid IS the result of a Volume.pad
+       call on vpre (the receiver, or its crop) in which m is a new voxel (fp m = None - so 4.
+       gives its value: edge / constant / statistic of vpre), the rest of the history (ops2) carries
+       m to j, j lies at exactly the physical coordinate the padding voxel m had, and - no with_array
+       in ops2 - holds the value written by that pad, up to one channel re-indexing *)
+Theorem C08_history_new_voxels_are_padding :
+  forall R rO rI radd rmul rsub ropp inj ltb Vx padval,
+  Zring R rO rI radd rmul rsub ropp inj ->
+  forall ops (v : vol R Vx), wf (v_shape R Vx v) ->
+  let r := run_tr R rO radd rmul rsub ropp inj ltb Vx padval v ops in
+  forall j, inr (v_shape R Vx (fst r)) j ->
+  match snd r j with
+  | Some i => inr (v_shape R Vx v) i /\
+              physZ R radd rmul inj (v_aff R Vx (fst r)) j = physZ R radd rmul inj (v_aff R Vx v) i
+  | None =>
+      exists ops1 s ops2 vpre w md cv pc vmid fp l m,
+        ops = (ops1 ++ Sp s :: ops2)%list /\ nopad s = false /\
+        step R rO radd rmul rsub ropp inj ltb Vx padval
+             (run R rO radd rmul rsub ropp inj ltb Vx padval v ops1) (Sp s) = Ok vmid /\
+        vol_pad R radd rmul inj Vx padval vpre w md cv pc = Ok (vmid, fp) /\ prep_pad_width w = Ok l /\
+        wf (v_shape R Vx vpre) /\
+        v_chans R Vx vpre = v_chans R Vx (run R rO radd rmul rsub ropp inj ltb Vx padval v ops1) /\
+        inr (v_shape R Vx vmid) m /\ fp m = None /\
+        fst (run_tr R rO radd rmul rsub ropp inj ltb Vx padval vmid ops2) = fst r /\
+        snd (run_tr R rO radd rmul rsub ropp inj ltb Vx padval vmid ops2) j = Some m /\
+        physZ R radd rmul inj (v_aff R Vx (fst r)) j = physZ R radd rmul inj (v_aff R Vx vmid) m /\
+        (no_with_array ops2 = true ->
+         exists psi : list Z -> list Z, forall c, v_arr R Vx (fst r) j c = v_arr R Vx vmid m (psi c))
+  end.
+Proof. exact history_new_voxels_are_padding. Qed.
+Print Assumptions C08_history_new_voxels_are_padding.
+
+(* 16b. one operation: a voxel without pre-image is written by a pad call *)
+Theorem C08_new_voxel_comes_from_pad :
+  forall R rO radd rmul rsub ropp inj ltb Vx padval (v : vol R Vx) o v' f m,
+  vol_step_sp R rO radd rmul rsub ropp inj ltb Vx padval v o = Ok (v', f) -> wf (v_shape R Vx v) ->
+  inr (v_shape R Vx v') m -> f m = None ->
+  nopad o = false /\
+  exists vpre w md cv pc fp l,
+    vol_pad R radd rmul inj Vx padval vpre w md cv pc = Ok (v', fp) /\ prep_pad_width w = Ok l /\ fp m = None /\
+    wf (v_shape R Vx vpre) /\ v_chans R Vx vpre = v_chans R Vx v.
+Proof. exact new_voxel_comes_from_pad. Qed.
+Print Assumptions C08_new_voxel_comes_from_pad.
+
+(* non-vacuity of 16: reverse, pad_or_crop_to (3,2,3) with the MEAN, flip, cyclic permutation, EDGE
+   pad, crop_to (4,4,3) on the rotated left-handed 2x3x2 volume.  Result voxel (2,1,1) is initial
+   voxel (1,0,1); (1,3,1) descends from voxel (2,0,2) that the MEAN pad created with value 5;
+   (0,0,0) was created by the later EDGE pad *)
+Example C08_example_history_padding :
+  wf (v_shape _ _ ex_vol2) /\ no_with_array ex_h_ops2 = true /\ nopad ex_h_pad = false /\
+  let r := q_run_tr ex_vol2 (ex_h_ops1 ++ Sp ex_h_pad :: ex_h_ops2) in
+  v_shape _ _ (fst r) = (4, 4, 3) /\ snd r (2, 1, 1) = Some (1, 0, 1) /\
+  snd r (1, 3, 1) = None /\ snd r (0, 0, 0) = None /\
+  match q_step_tr (q_run ex_vol2 ex_h_ops1) (Sp ex_h_pad) with
+  | Ok (vmid, f) =>
+      v_shape _ _ vmid = (3, 2, 3) /\ f (2, 0, 2) = None /\
+      snd (q_run_tr vmid ex_h_ops2) (1, 3, 1) = Some (2, 0, 2) /\
+      snd (q_run_tr vmid ex_h_ops2) (0, 0, 0) = None /\
+      v_arr _ _ (fst r) (1, 3, 1) [] = v_arr _ _ vmid (2, 0, 2) [] /\
+      v_arr _ _ vmid (2, 0, 2) [] = inject_Z 5
+  | Err _ => False
+  end.
+Proof. exact ex_history_padding. Qed.
+Print Assumptions C08_example_history_padding.
+
+(* 17. the residue of 10 is settled: WITH ties [C08_orientation_reached] is FALSE of the faithful
+       model.  A scaled orthogonal patient volume whose first two columns lie at exactly 45 degrees
+       between two patient axes has closest orientation L A H; the request A L H is accepted and the
+       closest orientation of the result is L P H.  The real code replays it.  No voxel moves (1.-3.
+       hold for this operation as for every other) *)
+Theorem C08_orientation_reached_with_ties_refuted :
+  exists (v : qvol) o v' f,
+    wf (v_shape _ _ v) /\ scaled_orthogonal Qc (Q2Qc 0) Qcplus Qcmult (v_aff _ _ v) /\
+    v_patient _ _ v = true /\ normalize_orientation o = Ok o /\
+    closest Qc (Q2Qc 0) Qcopp qc_ltb (v_aff _ _ v) = [0; 3; 4] /\
+    q_step_tr v (Sp (OOrient o)) = Ok (v', f) /\
+    o = [3; 0; 4] /\ closest Qc (Q2Qc 0) Qcopp qc_ltb (v_aff _ _ v') = [0; 2; 4] /\
+    closest Qc (Q2Qc 0) Qcopp qc_ltb (v_aff _ _ v') <> o.
+Proof. exact orientation_reached_with_ties_refuted. Qed.
+Print Assumptions C08_orientation_reached_with_ties_refuted.
+
+(* 18. index items of foreign types (numpy integers, floats, lists, None, Ellipsis, str; bool is an
+       int).  [getitem_ext] = the type dispatch of _prepare_getitem_index in front of the checks: an
+       index that is accepted consists of at most three ints / slices that pass their bounds checks
+       (so it IS an index of theorems 1-3); an index holding a foreign item is never accepted; the
+       refusal is a TypeError exactly when there are at most three items and every item before the
+       first foreign one passes its own check (an out-of-range item in front wins, more than three
+       items are refused first) *)
+Theorem C08_getitem_accepted_index_is_ints_and_slices : forall shape x ix,
+  getitem_ext shape x = Ok ix ->
+  exists its, x = XOk (map Some its) /\ ix = XTup its /\ Z.of_nat (length its) <= 3 /\
+              exists sl, check_items shape 0 its = Ok sl.
+Proof. exact getitem_ext_sound. Qed.
+Print Assumptions C08_getitem_accepted_index_is_ints_and_slices.
+
+Theorem C08_getitem_foreign_item_refused : forall shape,
+  getitem_ext shape XBadType = Err "TypeError" /\
+  forall l, In None l -> exists k, getitem_ext shape (XOk l) = Err k.
+Proof. exact getitem_ext_foreign_refused. Qed.
+Print Assumptions C08_getitem_foreign_item_refused.
+
+Theorem C08_getitem_type_error_iff : forall shape l,
+  getitem_ext shape (XOk l) = Err "TypeError" <->
+  (Z.of_nat (length l) <= 3 /\
+   exists pre post sl, l = (map Some pre ++ None :: post)%list /\ check_items shape 0 pre = Ok sl).
+Proof. exact getitem_ext_type_error_iff. Qed.
+Print Assumptions C08_getitem_type_error_iff.
+
+(* 19. VolumeToVolumeTransformer(initial, result).__call__ - plain, and with round_output=True,
+       check_bounds=True - asked of the result of ANY finite history from a scaled orthogonal volume
+       for an initial voxel i that survives as voxel j (Phi j = Some i): the plain call answers exactly
+       j, the rounded bounds-checked call is accepted and answers j *)
+Theorem C08_history_transformer_call_finds_voxels : forall (ops : list qop) (v : qvol),
+  wf (v_shape _ _ v) -> scaled_orthogonal Qc (Q2Qc 0) Qcplus Qcmult (v_aff _ _ v) ->
+  let v' := fst (q_run_tr v ops) in
+  let Phi := snd (q_run_tr v ops) in
+  forall j, inr (v_shape _ _ v') j -> forall i, Phi j = Some i ->
+  forall vals,
+    observe (v_aff _ _ v) (v_aff _ _ v') (v_shape _ _ v') vals (QXfCall [i]) = VL (vvec (vecZ j)) /\
+    observe (v_aff _ _ v) (v_aff _ _ v') (v_shape _ _ v') vals (QXfRound [i]) =
+      VL [let '(j0, j1, j2) := j in VL [VZ j0; VZ j1; VZ j2]].
+Proof. exact history_transformer_call_finds_voxels. Qed.
+Print Assumptions C08_history_transformer_call_finds_voxels.
+
+(* 20. THE PROPERTY SENTENCE as one statement.  For every finite history (refused operations leave
+       the object as it was) from a volume with shape >= 1 and a scaled orthogonal affine, whose pad
+       modes are valid names: the result has shape >= 1, a scaled orthogonal affine, the same
+       coordinate system and frame of reference; every voxel of the result is either a retained voxel
+       found at exactly the physical coordinate it had, or descends from a padding voxel written by
+       one pad call of the history and lies where that padding voxel lay; no voxel is duplicated;
+       retained voxels keep their values (up to one channel re-indexing when channel operations
+       occur, if no with_array occurs); spatial operations and copies leave the channel table
+       untouched; and the geometry-only object driven through the same history ends with exactly
+       the geometry of the volume.  (The original object is unchanged by construction: the model is
+       functional; the correspondence run checks the receiver after every call.) *)
+Theorem C08_property_end_to_end :
+  forall R rO rI radd rmul rsub ropp inj ltb Vx padval,
+  Zring R rO rI radd rmul rsub ropp inj ->
+  forall ops (v : vol R Vx),
+  wf (v_shape R Vx v) -> scaled_orthogonal R rO radd rmul (v_aff R Vx v) -> Forall (op_modes_ok Vx) ops ->
+  let r := run_tr R rO radd rmul rsub ropp inj ltb Vx padval v ops in
+  let v' := fst r in
+  wf (v_shape R Vx v') /\ scaled_orthogonal R rO radd rmul (v_aff R Vx v') /\
+  v_patient R Vx v' = v_patient R Vx v /\ v_for R Vx v' = v_for R Vx v /\
+  (forall j, inr (v_shape R Vx v') j ->
+     match snd r j with
+     | Some i => inr (v_shape R Vx v) i /\
+                 physZ R radd rmul inj (v_aff R Vx v') j = physZ R radd rmul inj (v_aff R Vx v) i
+     | None => exists ops1 s ops2 vpre w md cv pc vmid fp l m,
+         ops = (ops1 ++ Sp s :: ops2)%list /\ nopad s = false /\
+         vol_pad R radd rmul inj Vx padval vpre w md cv pc = Ok (vmid, fp) /\ prep_pad_width w = Ok l /\
+         inr (v_shape R Vx vmid) m /\ fp m = None /\
+         snd (run_tr R rO radd rmul rsub ropp inj ltb Vx padval vmid ops2) j = Some m /\
+         physZ R radd rmul inj (v_aff R Vx v') j = physZ R radd rmul inj (v_aff R Vx vmid) m
+     end) /\
+  (forall j j' i, inr (v_shape R Vx v') j -> inr (v_shape R Vx v') j' ->
+     snd r j = Some i -> snd r j' = Some i -> j = j') /\
+  (no_with_array ops = true ->
+   exists psi : list Z -> list Z, forall j, inr (v_shape R Vx v') j -> forall i, snd r j = Some i ->
+     forall c, v_arr R Vx v' j c = v_arr R Vx v i (psi c)) /\
+  (forallb op_spatial ops = true -> v_chans R Vx v' = v_chans R Vx v) /\
+  geom_of R Vx v' = grun R rO radd rmul rsub ropp inj ltb Vx (geom_of R Vx v) ops.
+Proof. exact property_end_to_end. Qed.
+Print Assumptions C08_property_end_to_end.
+
+Example C08_example_end_to_end :
+  let ops := (ex_h_ops1 ++ Sp ex_h_pad :: ex_h_ops2)%list in
+  wf (v_shape _ _ ex_vol2) /\ scaled_orthogonal Qc (Q2Qc 0) Qcplus Qcmult (v_aff _ _ ex_vol2) /\
+  Forall (op_modes_ok Q) ops /\ forallb op_spatial ops = true /\ no_with_array ops = true /\
+  v_shape _ _ (fst (q_run_tr ex_vol2 ops)) = (4, 4, 3).
+Proof. exact ex_end_to_end. Qed.
+Print Assumptions C08_example_end_to_end.
+
+(* 21. the convention-facing and DICOM-facing queries speak about the same points: the affine
+       returned by get_affine(output_convention) sends every index to the convention image (rows
+       permuted / negated) of the point the LPH affine sends it to - a change of convention moves no
+       voxel; get_plane_position(k) is the physical coordinate of voxel (k, 0, 0) *)
+Theorem C08_convention_moves_no_voxel : forall d0 d1 d2 (A : aff Qc) (i j k : Qc),
+  phys Qc Qcplus Qcmult (conv_aff d0 d1 d2 A) i j k = conv_vec d0 d1 d2 (phys Qc Qcplus Qcmult A i j k).
+Proof. exact convention_moves_no_voxel. Qed.
+Print Assumptions C08_convention_moves_no_voxel.
+
+Theorem C08_plane_position_is_voxel_coordinate : forall A0 A shape vals k,
+  0 <= k < (let '(n0, _, _) := shape in n0) ->
+  observe A0 A shape vals (QPlanePos [k]) = VL [VL (vvec (q_phys A (k, 0, 0)))].
+Proof. exact plane_position_is_voxel_coordinate. Qed.
+Print Assumptions C08_plane_position_is_voxel_coordinate.
